@@ -334,8 +334,29 @@ func cmdCheck(args []string) int {
 			funcErrs = append(funcErrs, n+": "+r.Err)
 		}
 	}
+	// the antecedent of a conditional clause of a generic function may be unsatisfiable for some type arguments
+	// (e.g. "value is a float" for the integer instances): it is vacuous only if no instance can satisfy it
+	antecedentAlive := map[string]bool{}
+	antecedentKey := func(ob *Obligation) string {
+		fn := ob.Fn
+		if k := strings.Index(fn, "["); k >= 0 {
+			fn = fn[:k]
+		}
+		return fn + "/" + ob.Name[strings.Index(ob.Name, "/cover(")+1:]
+	}
+	for _, ob := range obls {
+		if ob.Cover && strings.Contains(ob.Name, "/cover(antecedent(") && ob.Result.Status != "unsat" && ob.Result.Status != "error" {
+			antecedentAlive[antecedentKey(ob)] = true
+		}
+	}
 	for _, ob := range obls {
 		if ob.Cover {
+			if strings.Contains(ob.Name, "/cover(antecedent(") && antecedentAlive[antecedentKey(ob)] {
+				if ob.Result.Status != "sat" {
+					coverUnconfirmed++
+				}
+				continue
+			}
 			if ob.Result.Status == "unsat" || ob.Result.Status == "error" {
 				fails = append(fails, failure{ob, "vacuity guard: " + ob.Text + " is contradictory"})
 			} else if ob.Result.Status != "sat" {
